@@ -1178,10 +1178,12 @@ Definition handle_setext_heading (o : bopts) (st : pstate) (container : nat) (li
   | Some sc =>
     do r <- resolve_refdefs (bo_fold o) (ps_refmap st) (bi_content (binf c));
     let '(content', has_content, m') := r in
-    do st1 <- modify_info (st_refmap st m') container (set_content content');
+    let level := match sc with SetextEquals => 1%N | SetextHyphen => 2%N end in
+    (* ast.content = ..; if has_content { container.value = Heading{level, setext: true} }: one update of the node *)
+    do st1 <- modify_info (st_refmap st m') container
+                (fun i => if has_content then set_val (Heading level true) (set_content content' i) else set_content content' i);
     if has_content then
-      let level := match sc with SetextEquals => 1%N | SetextHyphen => 2%N end in
-      do st2 <- modify_info st1 container (set_val (Heading level true));
+      let st2 := st1 in
       do k0 <- sub "mod.rs:handle_setext_heading:line.len() - 1" (List.length line) 1;
       do k <- sub "mod.rs:handle_setext_heading:line.len() - 1 - self.offset" k0 (offset st2);
       do st3 <- adv st2 line k false;
